@@ -57,7 +57,7 @@ MATCH = b'MATCH'
 
 def shards(tier):
     q = tier == 'quick'
-    out = [{'kind': 'sim', 'n': 2500 if q else 40000} for _ in range(12)]
+    out = [{'kind': 'sim', 'n': 6000 if q else 60000} for _ in range(12)]
     out += [{'kind': 'real', 'n': 12 if q else 150} for _ in range(4)]
     return out
 
